@@ -13,6 +13,7 @@ func init() { register("C07", checkC07) }
 
 func checkC07(c *Ctx) {
 	r := c.R
+	r.Rule("R05.9", "(shared with C05) each key once: the de-duplication merges two members exactly when their Key() strings are equal (nothing else - not their kind - keeps two members of one key apart)")
 	r.Rule("R09.1", "(shared with C09) the members printed are this group's own: no field of the pooled encoder is read before the current record (or group) wrote it")
 	r.Rule("R10.2", "(shared with C10) the logger's registered context keys: each With-form (WithContextKeys included) applies its setting to the new child and leaves the receiver alone")
 	r.Rule("R07.6", "every registered key, every attribute: the loop of fromCtx over the registered context keys and the loop of serializeAttrs over the member list have their natural exit only (an absent key or a special-cased member must not end the traversal)")
@@ -40,6 +41,7 @@ func checkC07(c *Ctx) {
 		c08Stores(c, p, m)
 		c07Sort(c, p, m)
 		pooledCtxFromConstructor(c, p, "R07.4")
+		dedupeEquality(c, p, m, "R05.9")
 		attrCopiesWhole(c, p, "R07.4")
 		c09Pooled(c, p, m, "R09.1", feasibleModes)
 		nilContextSafe(c, p, m, "R02.9")
